@@ -85,7 +85,7 @@ def generate(prop, rng):
     weights = {
         "C01": [(5, "stage"), (2, "stage_file"), (3, "xfer"), (3, "index_save"), (2, "migrate"), (1, "gc"), (1, "edit")],
         "C02": [(5, "stage"), (2, "stage_file"), (2, "xfer"), (3, "index_save"), (1, "migrate"), (5, "checkout"), (1, "edit")],
-        "C06": [(5, "stage"), (1, "stage_file"), (2, "xfer"), (2, "index_save"), (1, "migrate"), (6, "gc"), (2, "evict")],
+        "C06": [(5, "stage"), (1, "stage_file"), (2, "xfer"), (2, "index_save"), (1, "migrate"), (6, "gc"), (2, "evict"), (2, "ext_add")],
     }[prop]
     for n in range(nops):
         kind = gen.weighted(rng, weights)
@@ -149,6 +149,10 @@ def generate(prop, rng):
                       reuse_dest=rng.random() < 0.3)
         elif kind == "edit":
             op.update(tree=ti, content=rng.randrange(len(pool)), name=rng.choice(gen.NAMES))
+        elif kind == "ext_add":
+            # another client (its own handle) adds objects nobody here refers to, possibly under fan-out
+            # directories this process' long-lived handle has never listed
+            op.update(store=rng.choice(sorted(staged) or ["A"]), n=rng.randint(1, 4), tag=rng.randrange(10**6))
         elif kind == "evict":
             op.update(store=rng.choice(sorted(staged) or ["A"]), pick=rng.random(), prefer_dir=rng.random() < 0.6)
         if faulty and kind in ("stage", "xfer", "index_save", "stage_file") and rng.random() < 0.5:
@@ -855,7 +859,18 @@ def op_evict(h, op, n):
     return None
 
 
+def op_ext_add(h, op, n):
+    s = op["store"]
+    algo = STORES[s]["hash"]
+    for k in range(op["n"]):
+        data = b"added-by-another-client-%d-%d\n" % (op["tag"], k)
+        h.w.raw_add(h.dirname(s), STORES[s]["kind"], model.ref_digest(algo, data), data)
+    h.ctx.probe("objects_added_by_another_client")
+    return None
+
+
 OPS = {
+    "ext_add": op_ext_add,
     "stage": op_stage, "stage_file": op_stage_file, "xfer": op_xfer, "index_save": op_index_save,
     "migrate": op_migrate, "gc": op_gc, "checkout": op_checkout, "edit": op_edit, "evict": op_evict,
 }  # fmt: skip
